@@ -444,6 +444,13 @@ def level2_specs(ctx, archs, isa_of, volume):
             add(L.gen_asm(rng, isa, rng.randint(3, 25), unknown=rng.choice([0, 0, 1])), isa, arch, rng.random() < 0.5,
                 rng.random() < 0.5, origin="generated")
     # option logic: default model per ISA, large unmarked file, --lines
+    # no --arch on integer-only x86 code with tokens the ISA heuristic takes for AArch64 registers (hex displacements): the first
+    # guess is wrong, parsing fails and `inspect` retries with the other ISA -- the warning and the default model must be as for any
+    # other run without --arch
+    misguess = "\n".join(["# OSACA-BEGIN", ".L1:", "    addq $1, %rax", "    movq 0x10(%rdi), %rbx", "    addq %rbx, %rcx",
+                          "    movq %rcx, 0x18(%rdi)", "    cmpq %rax, %rsi", "    jne .L1", "# OSACA-END"]) + "\n"
+    for fixed in (True, False):
+        add(misguess, "x86", None, fixed, False, origin="no-arch-misguessed-isa")
     for isa in ("x86", "aarch64"):
         small = L.gen_asm(rng, isa, 6, marked=True)
         add(small, isa, None, True, False, origin="no-arch")
